@@ -153,6 +153,30 @@ func genC03(r *rand.Rand, run int, tier string) *vm.Plan {
 	}
 	h.add(vm.Op{K: "verify", A: tl, KS: &vm.KeySel{Key: key}, Az: &az, Qs: qs, Lim: bigDur, Name: "twin"})
 	h.add(vm.Op{K: "verify", A: tx, KS: &vm.KeySel{Key: key}, Az: &az, Qs: qs, Lim: bigDur, Name: "twin", Map: perm})
+	// the authorizer's facts arrive in two instalments with an evaluation in between: what is added
+	// after a first Authorize is as visible to every block as what was there before it (twin: a
+	// fresh authorizer that is given everything at once)
+	if r.Intn(3) == 0 && len(az.Facts) > 0 {
+		tok := tl
+		if r.Intn(2) == 0 {
+			tok = tx
+		}
+		cut := r.Intn(len(az.Facts))
+		// (without rules of the authorizer's own: Authorize withdraws them from the authorizer's world
+		// once the authority level is evaluated, so what they would derive from facts added later is
+		// outside what C03 or C12 state; the token's rules are loaded again by every Authorize)
+		az := az
+		az.Rules = nil
+		first := az
+		first.Facts = append([]ref.Pred{}, az.Facts[:cut]...)
+		second := ref.Authz{Facts: append([]ref.Pred{}, az.Facts[cut:]...)}
+		la := h.add(vm.Op{K: "az", A: tok, KS: &vm.KeySel{Key: key}, Lim: bigDur, Out: h.slot()})
+		h.add(vm.Op{K: "azadd", A: la, Az: &first})
+		h.add(vm.Op{K: "azauth", A: la, Qs: qs})
+		h.add(vm.Op{K: "azadd", A: la, Az: &second})
+		h.add(vm.Op{K: "azauth", A: la, Qs: qs, Name: "late"})
+		h.add(vm.Op{K: "verify", A: tok, KS: &vm.KeySel{Key: key}, Az: &az, Qs: qs, Lim: bigDur, Name: "late"})
+	}
 	// a later block whose own evaluation trips a limit: the authorizer's queries must still see
 	// the authority-level closure only (decided by the reference closure, not by twin agreement)
 	if r.Intn(3) == 0 {
